@@ -107,12 +107,20 @@ Section worker.
               end in
     (bookkeep w1 (r_name r) o, (n1 + n2, agg, n4)).
 
+  (** the fallback answer of notify_proxys (no proxy is a destination, no arm of the last match
+      handles the variant) is a refusal: its status is not the proxies' to decide *)
+  Definition refusals (id k : nat) : list response := map (fun _ => mkResp id SFailure) (seq 0 k).
+
+  Definition is_fallback (name : string) (agg : bool) : bool :=
+    match s4 (row_of name) with None => fallback_answers && negb agg | Some _ => false end.
+
   Definition emit (r : request) (o : oracle) (c : nat * bool * nat) : list response :=
     let '(a, agg, b) := c in
     answers (r_id r) o 0 a ++
     (if agg then [mkResp (r_id r) (if is_stop (r_name r) then SProcessing
                                    else if o_fail o a then SFailure else SOk)] else []) ++
-    answers (r_id r) o (S a) b.
+    (if fallback_refuses && is_fallback (r_name r) agg then refusals (r_id r) b
+     else answers (r_id r) o (S a) b).
 
   (** read_channel_messages_and_notify, one request *)
   Definition handle (w : worker) (r : request) (o : oracle) : worker * list response :=
